@@ -45,6 +45,8 @@ pub enum Ty {
     Str,
     Int,
     Os,
+    /// `PathBuf`, the other type bpaf takes from the OS string without decoding
+    Path,
     /// user type whose `FromStr` is a harness callback
     Num,
 }
@@ -302,6 +304,7 @@ fn typed_arg(named: &Named, metavar: S, ty: Ty, adjacent: bool) -> P {
         Ty::Str => fin!(String, Val::Str),
         Ty::Int => fin!(i64, Val::Int),
         Ty::Os => fin!(OsString, |o: OsString| Val::Os(o.into_vec())),
+        Ty::Path => fin!(std::path::PathBuf, |o: std::path::PathBuf| Val::Os(o.into_os_string().into_vec())),
         Ty::Num => fin!(Num, |n: Num| Val::Int(n.0)),
     }
 }
@@ -324,6 +327,7 @@ fn typed_pos(metavar: S, ty: Ty, strict: u8, help: Option<S>) -> P {
         Ty::Str => fin!(String, Val::Str),
         Ty::Int => fin!(i64, Val::Int),
         Ty::Os => fin!(OsString, |o: OsString| Val::Os(o.into_vec())),
+        Ty::Path => fin!(std::path::PathBuf, |o: std::path::PathBuf| Val::Os(o.into_os_string().into_vec())),
         Ty::Num => fin!(Num, |n: Num| Val::Int(n.0)),
     }
 }
@@ -919,6 +923,7 @@ fn ty_s(t: Ty) -> &'static str {
         Ty::Str => "str",
         Ty::Int => "int",
         Ty::Os => "os",
+        Ty::Path => "path",
         Ty::Num => "num",
     }
 }
@@ -927,6 +932,7 @@ fn ty_from(j: Option<&J>) -> Result<Ty, String> {
         Some("str") | None => Ok(Ty::Str),
         Some("int") => Ok(Ty::Int),
         Some("os") => Ok(Ty::Os),
+        Some("path") => Ok(Ty::Path),
         Some("num") => Ok(Ty::Num),
         Some(o) => Err(format!("bad ty {}", o)),
     }
